@@ -17,11 +17,22 @@ for name in tg:
             cells.append('%s: %s' % (prop, v))
     print('| %s | %s | %s |' % (name, tg[name]['what'], '; '.join(cells)))
 print()
-print('| seeded change | breaks | needs to manifest (from the author\'s notes) | demo clean/patched | baseline with patch | our quick checks |')
-print('|---|---|---|---|---|---|')
+print('| seeded change | round | what it is and what it needs (summary of the author\'s notes) | demo clean/patched | baseline | own-property quick check, first run | after strengthening |')
+print('|---|---|---|---|---|---|---|')
+def fmt(ch):
+    return '; '.join('%s -> %s %s' % (p, v['rc'], ' '.join('`%s`' % x for x in str(v.get('signatures', '')).split(',')[:2] if x)) for p, v in ch.items())
+tot = {1: [0, 0, 0], 2: [0, 0, 0]}
 for d in sorted(glob.glob(V + '/seeded/*')):
     m = json.load(open(d + '/meta.json'))
-    chk = '; '.join('%s -> %s %s' % (p, v['rc'], ' '.join('`%s`' % s for s in v['signatures'].split(',')[:2] if s)) for p, v in m['our_quick_checks'].items())
-    need = m.get('summary', '')
-    print('| %s | %s | %s | %s/%s | %s | %s |' % (m['id'], m['breaks_property'], need, m['demo_rc_clean_tree'], m['demo_rc_patched_tree'],
-          '58/58' if '58/58' in m['baseline_with_patch'] else m['baseline_with_patch'][:40], chk))
+    rnd = m.get('round', 1)
+    own = m['breaks_property']
+    first = m.get('first_run_checks') or m['our_quick_checks']
+    final = m['our_quick_checks']
+    f_ok = first.get(own, {}).get('rc') == 1
+    l_ok = any(v.get('rc') == 1 for v in final.values())
+    tot[rnd][0] += 1; tot[rnd][1] += int(f_ok); tot[rnd][2] += int(l_ok)
+    print('| %s | %d | %s | %s/%s | %s | %s | %s |' % (m['id'], rnd, m.get('summary', ''), m['demo_rc_clean_tree'], m['demo_rc_patched_tree'],
+          '58/58' if '58/58' in m['baseline_with_patch'] else m['baseline_with_patch'][:40], fmt(first), 'same' if first is final or m.get('first_run_checks') is None else fmt(final)))
+print()
+for r in (1, 2):
+    print('round %d: %d changes, %d reported by the own-property quick check at first run, %d reported by some quick check now' % (r, tot[r][0], tot[r][1], tot[r][2]))
